@@ -38,20 +38,47 @@ def gen(rng):
     nl = rng.choice([1, 2, 2])
     sets = rng.choice(SUBS)
     pools = [('pool%d' % i, rng.randrange(2, 6), nl, sets[i]) for i in range(npools)]
+    churn = rng.random() < 0.4
+    if churn:
+        # pools leave and join while the daemon runs (real remove_process_group / add_process_group); a pool that joins
+        # later has a new name or the name of a pool that was removed
+        for k in range(rng.choice([1, 1, 2])):
+            pools.append((rng.choice(['late%d' % k, 'pool%d' % rng.randrange(npools)]), rng.randrange(2, 6), nl, rng.choice(sets), 'absent'))
     ops, pid = [], 700
     for pi in range(npools):
         for li in range(nl):
             pid += 1
             ops += ['spawn %d %d %d' % (pi, li, pid), 'pstate %d %d running' % (pi, li), 'read %d %d %s' % (pi, li, READY.hex())]
     for _ in range(rng.randrange(2, 8)):
+        if churn and rng.random() < 0.45:
+            pi = rng.randrange(len(pools))
+            r = rng.random()
+            if r < 0.35:
+                ops.append('remove %d' % pi)              # a listener is (usually) still running: refused, nothing may change
+            elif r < 0.7:
+                for li in range(nl):
+                    ops += ['pstate %d %d stopping' % (pi, li), 'die %d %d - x' % (pi, li)]
+                ops.append('remove %d' % pi)
+            else:
+                late = [i for i, p in enumerate(pools) if len(p) > 4]
+                pi = rng.choice(late)
+                same = [i for i, p in enumerate(pools[:npools]) if p[0] == pools[pi][0]]
+                if same and rng.random() < 0.7:
+                    for li in range(nl):
+                        ops += ['pstate %d %d stopping' % (same[0], li), 'die %d %d - x' % (same[0], li)]
+                    ops.append('remove %d' % same[0])
+                ops.append('add %d' % pi)
+                for li in range(nl):
+                    pid += 1
+                    ops += ['spawn %d %d %d' % (pi, li, pid), 'pstate %d %d running' % (pi, li), 'read %d %d %s' % (pi, li, READY.hex())]
         for _ in range(rng.choice([1, 1, 2])):
             name, payload = rng.choice(ANNOUNCE)
             ops.append('notify %s %s' % (name, hexs(payload.encode())))
-        for pi in range(npools):
+        for pi in range(len(pools)):
             ops.append('transition %d' % pi)
         # every listener that was told something answers: mostly OK; one of them may reject, babble or die
-        bad = (rng.randrange(npools), rng.randrange(nl)) if rng.random() < 0.7 else None
-        for pi in range(npools):
+        bad = (rng.randrange(len(pools)), rng.randrange(nl)) if rng.random() < 0.7 else None
+        for pi in range(len(pools)):
             for li in range(nl):
                 if (pi, li) == bad:
                     r = rng.random()
@@ -68,7 +95,7 @@ def gen(rng):
                                 'read %d %d %s' % (pi, li, READY.hex())]
                 elif rng.random() < 0.8:
                     ops.append('read %d %d %s' % (pi, li, OKREADY.hex()))
-        for pi in range(npools):
+        for pi in range(len(pools)):
             ops.append('transition %d' % pi)
     return rng.choice(['strict', 'default']), pools, rng.choice(['shared', 'shared', 'unique']), ops
 
@@ -91,6 +118,17 @@ def corpus():
                         up(2) + [added] + both + bad + both))
             res.append(('strict', [('alpha', 10, 2, ['PROCESS_GROUP']), ('beta', 10, 2, ['PROCESS_GROUP'])], names,
                         up(2) + [added] + both + ['read 1 0 ' + OKREADY.hex()] + bad + both))
+    # seed C11-8: the removal of pool alpha is refused (a listener is running); alpha stays in the daemon and must be told of
+    # every later group / tick notification.  Seed C09-7: beta is removed for good; alpha (same types) must still be told.
+    tick = 'notify TICK_60 ' + b'when:960'.hex()
+    for names in ('shared', 'unique'):
+        res.append(('strict', [('alpha', 10, 2, ['PROCESS_GROUP', 'TICK_60']), ('beta', 10, 2, ['PROCESS_GROUP', 'TICK_60'])], names,
+                    up(2) + ['remove 0', added, tick] + both + ['read 0 0 ' + OKREADY.hex(), 'read 1 0 ' + OKREADY.hex()] + both))
+        res.append(('strict', [('alpha', 10, 2, ['PROCESS_GROUP', 'TICK_60']), ('beta', 10, 2, ['PROCESS_GROUP', 'TICK_60']),
+                               ('beta', 10, 1, ['TICK'], 'absent')], names,
+                    up(2) + ['pstate 1 0 stopping', 'die 1 0 - x', 'pstate 1 1 stopping', 'die 1 1 - x', 'remove 1', tick] + both +
+                    ['read 0 0 ' + b'RESULT 4\nFAILREADY\n'.hex()] + both + ['add 2', 'spawn 2 0 31', 'pstate 2 0 running', 'read 2 0 ' + READY.hex(),
+                                                                           tick, 'transition 2', 'transition 0']))
     return res
 
 
@@ -101,8 +139,36 @@ def monitor(h, drained):
     announced = {}            # event id -> (registered type name, payload text)
     returned = [dict() for _ in h.pools]      # pool -> {event: times one of its own listeners gave it back}
     discarded = [set() for _ in h.pools]      # pool -> serials its overflow rule discarded (error log entries)
+    live_at = {}              # event id -> which pools were in the daemon when it was announced
+    live = [not (len(p) > 4 and p[4] == 'absent') for p in h.spec]
+    removed_at = [None for _ in h.pools]      # the number of announcements made before the pool left the daemon
     for st in h.steps:
+        t = st['op'].split()
+        if t[0] in ('remove', 'add'):
+            # PROCESS_GROUP notifications correspond one-to-one to what they announce: the call's own answer says whether
+            # the pool left / joined; the notification follows the change of the table, names the group, and a refused call
+            # announces nothing and changes nothing (the pool keeps being told of everything it subscribed to)
+            qi = int(t[1])
+            res = next((o[4:] for o in st['outs'] if o.startswith('res:')), 'none')
+            want = []
+            if res == 'true':
+                live[qi] = (t[0] == 'add')
+                want = [('PROCESS_GROUP_ADDED' if t[0] == 'add' else 'PROCESS_GROUP_REMOVED', 'groupname:%s\n' % h.pools[qi][0])]
+                if t[0] == 'remove':
+                    removed_at[qi] = len(announced)
+            got = []
+            for evid, name in st['emitted']:
+                try:
+                    got.append((name, w.evobjs[evid].payload()))
+                except Exception:      # noqa
+                    got.append((name, None))
+            if got != want:
+                viol.append(('group-notification-not-one-to-one', '%r answered %s; announced %r, the change of the table calls for %r' % (
+                    st['op'], res, got, want)))
+            if res != 'true' and st['live'] != (steps_live_before(h, st)):
+                viol.append(('refused-call-changed-the-table', '%r answered %s but the groups in the daemon changed' % (st['op'], res)))
         for evid, name in st['emitted']:
+            live_at[evid] = list(live)
             try:
                 announced[evid] = (name, w.evobjs[evid].payload())
             except Exception as ex:        # noqa -- a payload that cannot be rendered is somebody else's finding
@@ -146,13 +212,24 @@ def monitor(h, drained):
                 viol.append(('notified-twice-of-one-event',
                              'pool %s was sent %d notifications of event %d (%s) although its own listeners gave it back %d times' % (
                                  pname, n, evid, announced[evid][0], returned[qi].get(evid, 0))))
-        if drained:
+        for evid in told:
+            if evid in live_at and not live_at[evid][qi]:
+                viol.append(('notified-of-event-announced-while-not-in-daemon', 'pool %s was sent event %d (%s), announced while the pool was not in supervisord.process_groups' % (
+                    pname, evid, announced[evid][0])))
+        if drained and live[qi]:
+            # a pool that is (still) in the daemon at the end was drained: it has been told of everything announced, while it
+            # was in the daemon, of the types it subscribed to
             for evid, (name, payload) in announced.items():
-                if name is not None and doc.subscribed(types, name) and evid not in told and \
+                if name is not None and live_at[evid][qi] and doc.subscribed(types, name) and evid not in told and \
                         getattr(w.evobjs[evid], 'serial', None) not in discarded[qi]:
-                    viol.append(('announced-event-never-notified', 'pool %s (events=%s) was never sent the announced event %d (%s)' % (
+                    viol.append(('announced-event-never-notified', 'pool %s (events=%s, in the daemon since before the announcement) was never sent the announced event %d (%s)' % (
                         pname, ','.join(types), evid, name)))
     return viol
+
+
+def steps_live_before(h, st):
+    k = h.steps.index(st)
+    return h.steps[k - 1]['live'] if k > 0 else [not (len(p) > 4 and p[4] == 'absent') for p in h.spec]
 
 
 def one(ctx, handler, pools, names, ops, cases, impls, drain=True):
@@ -191,5 +268,5 @@ def run(ctx):
 
 def replay(ctx, inp):
     cases, impls = [], []
-    one(ctx, inp['handler'], [tuple(p[:3]) + (p[3],) for p in inp['pools']], inp['names'], inp['ops'], cases, impls)
+    one(ctx, inp['handler'], [tuple(p[:3]) + (p[3],) + tuple(p[4:5]) for p in inp['pools']], inp['names'], inp['ops'], cases, impls)
     ctx.correspond('pool', cases, impls)
